@@ -293,7 +293,17 @@ Definition announces (en : env) (c : change) : bool :=
   | CSetDevice _ _ _ v => negb (rd_py_eqb (sread en l) (RVal v))
   end.
 
-Definition apply_change (en : env) (c : change) : env := set_store (changed_loc c) (new_rd c) en.
+Fixpoint remove_loc (l : loc) (s : list (loc * rd)) : list (loc * rd) :=
+  match s with
+  | [] => []
+  | (k, v) :: s' => if loc_eqb l k then remove_loc l s' else (k, v) :: remove_loc l s'
+  end.
+
+Definition apply_change (en : env) (c : change) : env :=
+  match c with
+  | CRemoveMachine n => mkEnv (params en) (remove_loc (LMachine n) (store en)) (in_game en)
+  | _ => set_store (changed_loc c) (new_rd c) en
+  end.
 
 (* the subscriber of ConfigPlayer._update_subscription: holds the last delivered value and the
    subscription list of the last evaluation *)
